@@ -732,6 +732,8 @@ class Pool(BasePool[C]):
         self._report_snapshot()
         self._capture_snapshot(now=now)
 
+        self._revive_stranded_blocks()
+
         # If we're managing connections to only one PostgreSQL DB (Mode A),
         # bail out early. Just give the one and only block we have the max
         # possible quota (which is needed only for logging purposes.)
@@ -910,6 +912,35 @@ class Pool(BasePool[C]):
                     dbname=block.dbname, event='set-quota', value=block.quota)
 
             self._maybe_rebalance()
+
+    def _revive_stranded_blocks(self) -> None:
+        # A block whose tasks are blocked in acquire() while it has neither
+        # a connection nor a pending one depends on some release() to hand
+        # it a connection.  No release() is coming if the capacity it was
+        # waiting for was freed in another way (a connect that failed for
+        # good, a discarded or garbage-collected connection that finished
+        # closing), or if the only connections left sit idle in other
+        # blocks.  Serve such blocks here, or they would block forever.
+        for block in list(self._blocks.values()):
+            if (
+                not block.count_waiters()
+                or block.count_conns()
+                or block.suppressed
+            ):
+                continue
+
+            if self._cur_capacity < self._max_capacity:
+                self._new_blocks_waitlist.pop(block, None)
+                self._schedule_new_conn(block)
+                continue
+
+            for from_block in list(self._blocks.values()):
+                if from_block is block or from_block.count_waiters():
+                    continue
+                if (conn := from_block.try_steal()) is not None:
+                    self._new_blocks_waitlist.pop(block, None)
+                    self._schedule_transfer(from_block, conn, block)
+                    break
 
     def _maybe_rebalance(self) -> None:
         if self._is_starving:
